@@ -1,6 +1,6 @@
 (* Extraction of the C08 models for the correspondence check. ExtrOcamlBasic only. *)
 From V.lib Require Import Base.
-From V.c08 Require Import C08Model C08Spec.
+From V.c08 Require Import C08Model C08Spec C08SelModel.
 Require Import ExtrOcamlBasic.
 Separate Extraction
   rsk rf mdat boxhdr
@@ -10,4 +10,5 @@ Separate Extraction
   read_data copy_data
   chunk stbl mstate chunk_seg copy_sample_data
   box_in_file valid_range header_at chunks_cover chunks_in_payload expected_samples
-  topbox boxdesc decode_file_top layout_at views erase.
+  topbox boxdesc decode_file_top layout_at views erase
+  payload_size file_mdat mdat_view decode_file_mdat.
